@@ -3,6 +3,7 @@ package props
 import (
 	"math"
 	"math/big"
+	"sort"
 	"strings"
 	"testing"
 
@@ -303,7 +304,7 @@ func checkC14Out(c C14Case, o *h.Obs) *h.Fail {
 	x := c.X.Build()
 	v := c.X.Val()
 	before := h.Read(x)
-	moderate := v.Form != model.Finite || v.Exp <= 5000 && v.Exp >= -5000
+	moderate := v.Form != model.Finite || v.Exp <= 1<<20 && v.Exp >= -5000 // (generated exponents stay within 5000; the enumerated sizes go to 630000 digits)
 	// IsInt / MinPrec
 	wantIsInt := v.Form == model.Zero || v.Form == model.Finite && int64(len(v.Digits)) <= v.Exp
 	if g := x.IsInt(); g != wantIsInt {
@@ -469,6 +470,45 @@ func TestC14Grid(t *testing.T) {
 		v.Add(v, big.NewInt(12345))
 		run(C14Case{Op: "setint", I: v.String(), P: 0, M: 0})
 		run(C14Case{Op: "setint", I: v.String(), P: 40, M: 2})
+	}
+	// Sizes at which a result barely needs one more word: the conversions allocate their result from an estimate
+	// (digits*log2(10) bits, bits*log10(2) digits); an estimate that is a hair too small only shows where the true
+	// size lies just above a word boundary, and the larger the number the smaller the hair that matters. Ranked by
+	// (distance above the boundary) / size, the tightest sizes up to 190000 digits (quick) / 630000 (thorough), with
+	// the all-nines / all-ones value that fills the top word the most.
+	maxD, maxB, keep := 190000, 1<<20-1<<18, 14
+	if h.Thorough() {
+		maxD, maxB, keep = 630000, 1<<21, 24
+	}
+	type cand struct {
+		size int
+		rel  float64
+	}
+	pick := func(max int, per float64, word float64) []int {
+		var cs []cand
+		for k := 40; k <= max; k++ {
+			v := float64(k) * per
+			t := v - word*math.Floor(v/word) // position inside the top word, in bits or digits
+			cs = append(cs, cand{k, t / v})
+		}
+		sort.Slice(cs, func(i, j int) bool { return cs[i].rel < cs[j].rel })
+		var out []int
+		for _, c := range cs[:keep] {
+			out = append(out, c.size)
+		}
+		return out
+	}
+	for _, d := range pick(maxD, math.Ln10/math.Ln2, 64) {
+		v := new(big.Int).Exp(ten, big.NewInt(int64(d)), nil)
+		v.Sub(v, big.NewInt(1))
+		vv := model.FromInt(v, 0)
+		run(C14Case{Op: "out", X: h.SpecOf(vv, uint(len(vv.Digits)), 0)})
+	}
+	for _, b := range pick(maxB, math.Ln2/math.Ln10, 19) {
+		v := new(big.Int).Lsh(big.NewInt(1), uint(b))
+		v.Sub(v, big.NewInt(1))
+		run(C14Case{Op: "setint", I: v.String(), P: 0, M: 0})
+		run(C14Case{Op: "setint", I: v.String(), P: 20, M: 2})
 	}
 	h.AddExtra("C14", "size_grid_cases_enumerated", n)
 }
